@@ -88,6 +88,14 @@ func verdict(text string, bounded bool) (accepted bool, err error) {
 	if g == nil {
 		return false, fmt.Errorf("nil geometry and nil error")
 	}
+	// an accepted geometry is the caller's: it is looked at after EMPTY geometries of the
+	// other layouts have been parsed (values without coordinates are the ones an
+	// implementation is tempted to share between results)
+	if strings.Contains(text, "MPTY") || strings.Contains(text, "mpty") {
+		for _, o := range []string{"GEOMETRYCOLLECTION M EMPTY", "GEOMETRYCOLLECTION Z EMPTY", "GEOMETRYCOLLECTION ZM EMPTY", "GEOMETRYCOLLECTION EMPTY", "POINT ZM EMPTY", "POINT EMPTY"} {
+			_, _ = wkt.Unmarshal(o)
+		}
+	}
 	m, err := model.FromGeom(g)
 	if err != nil {
 		return true, fmt.Errorf("accepted geometry not well formed: %v", err)
